@@ -13,6 +13,7 @@ pub mod run;
 pub mod stiff;
 pub mod trees;
 pub mod util;
+pub mod xoutrel;
 
 pub mod bytes;
 
